@@ -422,3 +422,145 @@ SUBCHECKS = [
     SubCheck("whole_network_limit", oracle_whole, gen=whole_cases,
              quick=(2, 100), thorough=(8, 2000)),
 ]
+
+
+# ---------------------------------------------------------------------------
+# CoupledClimateNetwork wrappers == InteractingNetworks calls on (nodes_1,
+# nodes_2); layer bookkeeping; geographic node weights survive construction
+
+COUPLED_SPECIAL = {
+    "adjacency_1": ("internal_adjacency", 1), "adjacency_2":
+    ("internal_adjacency", 2), "cross_layer_adjacency":
+    ("cross_adjacency", 12), "path_lengths_1": ("internal_path_lengths", 1),
+    "path_lengths_2": ("internal_path_lengths", 2),
+    "number_cross_layer_links": ("number_cross_links", 12),
+    "internal_betweenness_1": ("internal_betweenness", 1),
+    "internal_betweenness_2": ("internal_betweenness", 2),
+}
+
+
+def oracle_coupled(case, rec):
+    from pyunicorn.core import GeoGrid, InteractingNetworks as IN
+    from pyunicorn.climate import CoupledClimateNetwork
+    n1, n2 = len(case["lat1"]), len(case["lat2"])
+    n = n1 + n2
+    S = np.array(case["S"], dtype=float).reshape(n, n)
+    S = np.triu(S, 1) + np.triu(S, 1).T + np.eye(n)
+    g1 = GeoGrid(np.arange(3.0), np.array(case["lat1"], dtype=float),
+                 np.array(case["lon1"], dtype=float), silence_level=3)
+    g2 = GeoGrid(np.arange(3.0), np.array(case["lat2"], dtype=float),
+                 np.array(case["lon2"], dtype=float), silence_level=3)
+    nwt = case["nwt"]
+    ok, net = rec.call("coupled_construct", CoupledClimateNetwork, g1, g2,
+                       S, threshold=case["thr"], node_weight_type=nwt,
+                       silence_level=3)
+    if not ok:
+        return
+    rec.nontrivial(True)
+    rec.label("nwt=%s" % nwt)
+    A = np.asarray(net.adjacency)
+    S32 = np.abs(S.astype(np.float32))
+    expA = (S32 > np.float32(case["thr"])).astype(int)
+    np.fill_diagonal(expA, 0)
+    rec.equal(A, expA, "coupled_adjacency_is_thresholded_similarity")
+    N1 = list(range(n1))
+    N2 = list(range(n1, n))
+    rec.check(list(net.nodes_1) == N1 and list(net.nodes_2) == N2
+              and net.N_1 == n1 and net.N_2 == n2 and net.N == n,
+              "coupled_layer_bookkeeping")
+    lat = np.array(case["lat1"] + case["lat2"], dtype=np.float32)
+    cos = np.cos(lat * np.float32(np.pi / 180)).astype(float)
+    wexp = {"surface": cos, "irrigation": cos ** 2, None: np.ones(n)}[nwt]
+    nw = net.node_weights
+    if nw is None:
+        rec.fail("coupled_node_weights_follow_weight_type", "None")
+    else:
+        rec.close(np.asarray(nw, dtype=float), wexp,
+                  "coupled_node_weights_follow_weight_type", rtol=2e-6)
+    rec.close(net.similarity_measure_1(), S32[:n1, :n1],
+              "coupled_similarity_measure_1", rtol=0)
+    rec.close(net.similarity_measure_2(), S32[n1:, n1:],
+              "coupled_similarity_measure_2", rtol=0)
+    rec.close(net.cross_similarity_measure(), S32[:n1, n1:],
+              "coupled_cross_similarity_measure", rtol=0)
+    import inspect
+    for name in sorted(dir(CoupledClimateNetwork)):
+        if name.startswith("_") or name not in vars(CoupledClimateNetwork):
+            continue
+        fn = getattr(net, name)
+        if not callable(fn) or isinstance(
+                inspect.getattr_static(CoupledClimateNetwork, name),
+                (staticmethod, property)):
+            continue
+        ps = inspect.signature(fn).parameters.values()
+        if any(p.default is inspect.Parameter.empty for p in ps):
+            continue
+        if name in ("network_1", "network_2", "similarity_measure_1",
+                    "similarity_measure_2", "cross_similarity_measure",
+                    "cross_link_distance", "cross_average_link_distance"):
+            continue
+        base, mode = COUPLED_SPECIAL.get(name, (name, None))
+        ref = getattr(IN, base, None)
+        if ref is None:
+            continue
+        ok, got = rec.call("coupled_%s_raises" % name, fn)
+        if not ok:
+            continue
+        internal = base.startswith("internal_") or \
+            base == "number_internal_links"
+        pair = isinstance(got, tuple) and len(got) == 2
+        try:
+            if name in ("cross_betweenness", "internal_betweenness_1",
+                        "internal_betweenness_2"):
+                # documented: the whole-network sequence, split by layer
+                whole = (ref(net, N1, N2) if mode is None else
+                         ref(net, N1 if mode == 1 else N2))
+                exp = (np.asarray(whole)[N1], np.asarray(whole)[N2])
+            elif mode == 1:
+                exp = ref(net, N1)
+            elif mode == 2:
+                exp = ref(net, N2)
+            elif mode == 12:
+                exp = ref(net, N1, N2)
+            elif internal:
+                exp = (ref(net, N1), ref(net, N2))
+            elif pair:
+                exp = (ref(net, N1, N2), ref(net, N2, N1))
+            else:
+                exp = ref(net, N1, N2)
+        except Exception:  # pylint: disable=broad-except
+            continue        # the reference call itself is C11's main oracle
+        if isinstance(exp, tuple):
+            rec.check(pair, "coupled_%s_returns_pair" % name)
+            if pair:
+                rec.close(got[0], exp[0], "coupled_%s_layer1" % name,
+                          rtol=1e-9)
+                rec.close(got[1], exp[1], "coupled_%s_layer2" % name,
+                          rtol=1e-9)
+        elif not pair:
+            rec.close(got, exp, "coupled_%s" % name, rtol=1e-9)
+
+
+@st.composite
+def coupled_cases(draw):
+    n1 = draw(st.integers(2, 5))
+    n2 = draw(st.integers(2, 5))
+    n = n1 + n2
+
+    def co(k):
+        return (draw(st.lists(st.integers(-17, 17).map(lambda v: 5.0 * v),
+                              min_size=k, max_size=k)),
+                draw(st.lists(st.integers(-35, 35).map(lambda v: 5.0 * v),
+                              min_size=k, max_size=k)))
+    la1, lo1 = co(n1)
+    la2, lo2 = co(n2)
+    return {"lat1": la1, "lon1": lo1, "lat2": la2, "lon2": lo2,
+            "S": draw(st.lists(st.integers(0, 20).map(lambda k: k / 20.0),
+                               min_size=n * n, max_size=n * n)),
+            "thr": draw(st.integers(0, 19).map(lambda k: k / 20.0 + 0.025)),
+            "nwt": draw(st.sampled_from([None, "surface", "irrigation"]))}
+
+
+SUBCHECKS.append(SubCheck("coupled_climate_network", oracle_coupled,
+                          gen=coupled_cases, quick=(2, 60),
+                          thorough=(8, 800)))
